@@ -339,6 +339,12 @@ func (e *Engine) listen(ln net.Listener, tlsConfig *tls.Config, addConn func(*Co
 			if err == nil && !e.shutdown {
 				addConn(&Conn{Conn: conn}, tlsConfig, decrease)
 			} else {
+				if err == nil {
+					// accepted while shutting down: nobody is going to
+					// manage this connection, do not leave it open.
+					_ = conn.Close()
+					continue
+				}
 				var ne net.Error
 				if ok := errors.As(err, &ne); ok && ne.Timeout() {
 					logging.Error("Accept failed: timeout error, retrying...")
